@@ -20,6 +20,7 @@ EXPLANATION = (
     "optimisation setting an edge inside an SCC is only bounded from below by its multiplicity in a safe sequence (the bounds route equals the "
     "(R8) the integer*continuous product helper every walk model uses is exact up to its bound (bit count proof and rows of C12.R2).  "
     " (R5, extended) premises of the flow-valued repetition cap of kFlowDecompCycles are checked in the code: own-flow values cap only non-ignored edges, the flow row is exact, and the weights are at least 1 when positive - the last premise fails for weight_type=float and is reported as the known finding cap-units (scale invariance of C04 does not hold for factors below 1); (R3, extended) the total handed to MinGenSet (out-flow minus in-flow with missing values read as 0) is used only when every edge has a flow value; (R9) the products x*g of MinGenSet are bounded by max(total, numbers) (C15.R6); (R2, extended) the k-range reaches |E| + number of subset constraints. "
+    " (R10) as C03.R9 for MinFlowDecompCycles. "
     "constraint route), so walks may still repeat a cycle as often as a minimum decomposition needs.  NOT decided: minimality, completeness, validity of the condensation width as a bound, "
     "scale invariance for non-integer weights."
 )
@@ -108,4 +109,7 @@ def check(prog, rep):
     from rules.bounds import product_covers_rhs
     from rules.common import RuleProxy
     product_covers_rhs(prog, RuleProxy(rep, "C04.R9"), "C15.R6")
+    rep.rule("C04.R10", "solver noise of a float generating set does not reach the given-weights model as coefficients", floor=1)
+    from rules.values import generating_set_as_weights
+    generating_set_as_weights(prog, rep, "C04.R10", "MinFlowDecompCycles")
 
